@@ -53,7 +53,14 @@ func (e *eventStream) Receive(c *Context) {
 			level, msg, attr := logMsg.Log()
 			slog.Log(context.Background(), level, msg, attr...)
 		}
-		for _, sub := range e.subs {
+		for key, sub := range e.subs {
+			// A local subscriber that is gone is dropped. Forwarding to it would
+			// produce a DeadLetterEvent, which is again an event forwarded to it:
+			// a single dead letter would keep the event stream busy forever.
+			if c.engine.isLocalMessage(sub) && c.engine.Registry.get(sub) == nil {
+				delete(e.subs, key)
+				continue
+			}
 			c.Forward(sub)
 		}
 	}
